@@ -5,9 +5,9 @@ WT=$1; OUT=$2; DEMO=$3; shift 3
 export CARGO_TARGET_DIR=$WT/target
 cd $WT || exit 2
 echo "--- demo with patch:"; cargo test --offline "$@" 2>&1 | grep -E "^test result|FAILED|panicked at" | head -6
-mv $DEMO /tmp/_demo_aside.rs
+mv $DEMO /tmp/_demo_aside_$$.rs
 echo "--- workspace suite with patch (demo aside):"; cargo test --workspace --offline 2>&1 | grep "test result" | awk '{p+=$4; f+=$6} END{print "passed",p,"failed",f}'
-mv /tmp/_demo_aside.rs $DEMO
+mv /tmp/_demo_aside_$$.rs $DEMO
 git apply -R $OUT/patch.diff || { echo "cannot reverse patch"; exit 2; }
 echo "--- demo without patch:"; cargo test --offline "$@" 2>&1 | grep -E "^test result|FAILED" | head -4
 git apply $OUT/patch.diff
